@@ -193,18 +193,21 @@ const fn mul_add(mut ui_a: u32, mut ui_b: u32, mut ui_c: u32, op: MulAddType) ->
         } else {
             if reg_z == 30 {
                 bit_n_plus_one = (exp_z & 0x2) != 0;
-                bits_more = (exp_z & 0x1) != 0;
+                bits_more |= (exp_z & 0x1) != 0;
                 exp_z = 0;
             } else if reg_z == 29 {
                 bit_n_plus_one = (exp_z & 0x1) != 0;
                 exp_z >>= 1;
+            }
+            if (frac64_z & 0x3FFF_FFFF_FFFF_FFFF) != 0 {
+                bits_more = true;
             }
             0
         };
         let mut u_z = P32E2::pack_to_ui(regime, exp_z as u32, frac_z);
 
         if bit_n_plus_one {
-            if (frac64_z << (32 - reg_z)) != 0 {
+            if reg_z <= 28 && (frac64_z << (31 - reg_z)) != 0 {
                 bits_more = true;
             }
             u_z += (u_z & 1) | (bits_more as u32);
